@@ -318,4 +318,5 @@ c03!(c03_signal_seccomp_thread, 1, [SIG_SECCOMP], false);
 c03!(c03_regs_fail, 1, [REGS_FAIL], false);
 c03!(c03_two_threads_mixed, 2, [ONE_SIG, DIES], true);
 c03!(c03_two_threads_skip_first, 2, [SECCOMP, PLAIN], false);
+c03!(c03_two_threads_attach_fails_first, 2, [ATTACH_FAILS, PLAIN], true);
 c03!(c03_three_threads, 3, [ATTACH_FAILS, TWO_SIGS, PLAIN], true);
